@@ -60,6 +60,43 @@ func main() {
 	}
 	bankFns := map[string]bool{"MintCoins": true, "BurnCoins": true, "SendCoins": true, "SendCoinsFromModuleToModule": true, "SendCoinsFromModuleToAccount": true,
 		"SendCoinsFromAccountToModule": true, "DelegateCoins": true, "UndelegateCoins": true, "DelegateCoinsFromAccountToModule": true, "UndelegateCoinsFromModuleToAccount": true}
+	// package-level variables initialised from the wall clock or a random source: every function that
+	// reads one inherits the nondeterminism (they look like constants at the use site)
+	wallVars := map[types.Object]string{}
+	for _, p := range pkgs {
+		for _, f := range p.Syntax {
+			for _, d := range f.Decls {
+				gd, ok := d.(*ast.GenDecl)
+				if !ok || gd.Tok != token.VAR {
+					continue
+				}
+				for _, sp := range gd.Specs {
+					vs, ok := sp.(*ast.ValueSpec)
+					if !ok {
+						continue
+					}
+					for i, v := range vs.Values {
+						tainted := false
+						ast.Inspect(v, func(n ast.Node) bool {
+							if ce, ok := n.(*ast.CallExpr); ok {
+								if sel, ok := ce.Fun.(*ast.SelectorExpr); ok {
+									if id, ok := sel.X.(*ast.Ident); ok && ((id.Name == "time" && sel.Sel.Name == "Now") || id.Name == "rand") {
+										tainted = true
+									}
+								}
+							}
+							return true
+						})
+						if tainted && i < len(vs.Names) {
+							if obj := p.TypesInfo.Defs[vs.Names[i]]; obj != nil {
+								wallVars[obj] = vs.Names[i].Name
+							}
+						}
+					}
+				}
+			}
+		}
+	}
 	for _, p := range pkgs {
 		if len(p.Errors) > 0 {
 			fmt.Fprintln(os.Stderr, "package errors in", p.PkgPath, p.Errors[0])
@@ -161,6 +198,12 @@ func main() {
 								for _, a := range v.Args {
 									beginOrder = append(beginOrder, types.ExprString(a))
 								}
+							}
+						}
+					case *ast.Ident:
+						if obj := p.TypesInfo.Uses[v]; obj != nil {
+							if name, ok := wallVars[obj]; ok {
+								nondet = append(nondet, short+":"+fn+":reads-wallclock-var:"+name)
 							}
 						}
 					case *ast.RangeStmt:
